@@ -88,6 +88,33 @@ impl Scorer for VecScorer {
     }
 }
 
+/// a boxed Scorer seen as a boxed DocSet (every method forwarded)
+struct AsDocSet(Box<dyn Scorer>);
+/// a boxed DocSet seen as a Scorer with score 1 (every method forwarded, so that the wrapped
+/// type's own `count_including_deleted` / `fill_bitset_block` are reached)
+struct FullFwd(Box<dyn DocSet>);
+macro_rules! forward_docset {
+    ($t:ty) => {
+        impl DocSet for $t {
+            fn advance(&mut self) -> DocId { self.0.advance() }
+            fn seek(&mut self, target: DocId) -> DocId { self.0.seek(target) }
+            fn fill_buffer(&mut self, buffer: &mut [DocId; COLLECT_BLOCK_BUFFER_LEN]) -> usize { self.0.fill_buffer(buffer) }
+            fn fill_bitset_block(&mut self, min_doc: DocId, mask: &mut [TinySet; BLOCK_NUM_TINYBITSETS]) -> DocId { self.0.fill_bitset_block(min_doc, mask) }
+            fn doc(&self) -> DocId { self.0.doc() }
+            fn size_hint(&self) -> u32 { self.0.size_hint() }
+            fn cost(&self) -> u64 { self.0.cost() }
+            fn count_including_deleted(&mut self) -> u32 { self.0.count_including_deleted() }
+        }
+    };
+}
+forward_docset!(AsDocSet);
+forward_docset!(FullFwd);
+impl Scorer for FullFwd {
+    fn score(&mut self) -> f32 {
+        1.0
+    }
+}
+
 // ------------------------------------------------------------------------------------------
 // scorer trees
 // ------------------------------------------------------------------------------------------
@@ -100,6 +127,10 @@ enum T {
     Inter { cs: Vec<T>, num_docs: u32 },
     Excl { u: Box<T>, es: Vec<T>, single: bool },
     ReqOpt { sum: bool, req: Box<T>, opt: Box<T> },
+    /// `SimpleUnion` (a DocSet, not a Scorer: score 1)
+    SUnion { cs: Vec<T> },
+    /// `Disjunction` (minimum-should-match heap), `min_match >= 2`
+    Disj { sum: bool, min_match: usize, cs: Vec<T> },
 }
 
 fn merge(a: &[u32], b: &[u32]) -> Vec<u32> {
@@ -130,6 +161,16 @@ impl T {
                 acc
             }
             T::ReqOpt { req, .. } => req.docs(),
+            T::SUnion { cs } => cs.iter().fold(vec![], |acc, c| merge(&acc, &c.docs())),
+            T::Disj { min_match, cs, .. } => {
+                let mut cnt: std::collections::BTreeMap<u32, usize> = Default::default();
+                for c in cs {
+                    for d in c.docs() {
+                        *cnt.entry(d).or_insert(0) += 1;
+                    }
+                }
+                cnt.into_iter().filter(|(_, n)| *n >= *min_match).map(|(d, _)| d).collect()
+            }
         }
     }
     /// brute-force score of document `d` (None: not a member)
@@ -148,12 +189,17 @@ impl T {
                 if es.iter().any(|e| e.score_at(d).is_some()) { None } else { u.score_at(d) }
             }
             T::ReqOpt { sum, req, opt } => req.score_at(d).map(|r| if *sum { r + opt.score_at(d).unwrap_or(0) } else { 1 }),
+            T::SUnion { cs } => if cs.iter().any(|c| c.score_at(d).is_some()) { Some(1) } else { None },
+            T::Disj { sum, min_match, cs } => {
+                let v: Vec<u32> = cs.iter().filter_map(|c| c.score_at(d)).collect();
+                if v.len() < *min_match { None } else if *sum { Some(v.iter().sum()) } else { Some(1) }
+            }
         }
     }
     fn depth(&self) -> usize {
         match self {
             T::Leaf { .. } => 0,
-            T::BUnion { cs, .. } | T::Inter { cs, .. } => 1 + cs.iter().map(|c| c.depth()).max().unwrap_or(0),
+            T::BUnion { cs, .. } | T::Inter { cs, .. } | T::SUnion { cs } | T::Disj { cs, .. } => 1 + cs.iter().map(|c| c.depth()).max().unwrap_or(0),
             T::Excl { u, es, .. } => 1 + u.depth().max(es.iter().map(|c| c.depth()).max().unwrap_or(0)),
             T::ReqOpt { req, opt, .. } => 1 + req.depth().max(opt.depth()),
         }
@@ -166,13 +212,15 @@ impl T {
             T::Inter { .. } => "inter",
             T::Excl { .. } => "excl",
             T::ReqOpt { .. } => "reqopt",
+            T::SUnion { .. } => "sunion",
+            T::Disj { .. } => "disj",
         }
     }
     fn has_nested_bunion_in_bunion(&self) -> bool {
         match self {
             T::Leaf { .. } => false,
             T::BUnion { cs, .. } => cs.iter().any(|c| matches!(c, T::BUnion { .. }) || c.has_nested_bunion_in_bunion()),
-            T::Inter { cs, .. } => cs.iter().any(|c| c.has_nested_bunion_in_bunion()),
+            T::Inter { cs, .. } | T::SUnion { cs } | T::Disj { cs, .. } => cs.iter().any(|c| c.has_nested_bunion_in_bunion()),
             T::Excl { u, es, .. } => u.has_nested_bunion_in_bunion() || es.iter().any(|c| c.has_nested_bunion_in_bunion()),
             T::ReqOpt { req, opt, .. } => req.has_nested_bunion_in_bunion() || opt.has_nested_bunion_in_bunion(),
         }
@@ -184,7 +232,7 @@ impl T {
         match self {
             T::Leaf { .. } => false,
             T::BUnion { .. } => true,
-            T::Inter { cs, .. } => cs.iter().any(|c| c.has_bunion()),
+            T::Inter { cs, .. } | T::SUnion { cs } | T::Disj { cs, .. } => cs.iter().any(|c| c.has_bunion()),
             T::Excl { u, es, .. } => u.has_bunion() || es.iter().any(|c| c.has_bunion()),
             T::ReqOpt { req, opt, .. } => req.has_bunion() || opt.has_bunion(),
         }
@@ -192,7 +240,7 @@ impl T {
     fn has_bitset(&self) -> bool {
         match self {
             T::Leaf { kind, .. } => *kind == 2,
-            T::BUnion { cs, .. } | T::Inter { cs, .. } => cs.iter().any(|c| c.has_bitset()),
+            T::BUnion { cs, .. } | T::Inter { cs, .. } | T::SUnion { cs } | T::Disj { cs, .. } => cs.iter().any(|c| c.has_bitset()),
             T::Excl { u, es, .. } => u.has_bitset() || es.iter().any(|c| c.has_bitset()),
             T::ReqOpt { req, opt, .. } => req.has_bitset() || opt.has_bitset(),
         }
@@ -205,6 +253,8 @@ impl T {
             T::Inter { cs, num_docs } => T::Inter { cs: cs.iter().map(|c| c.without_bitset()).collect(), num_docs: *num_docs },
             T::Excl { u, es, single } => T::Excl { u: Box::new(u.without_bitset()), es: es.iter().map(|c| c.without_bitset()).collect(), single: *single },
             T::ReqOpt { sum, req, opt } => T::ReqOpt { sum: *sum, req: Box::new(req.without_bitset()), opt: Box::new(opt.without_bitset()) },
+            T::SUnion { cs } => T::SUnion { cs: cs.iter().map(|c| c.without_bitset()).collect() },
+            T::Disj { sum, min_match, cs } => T::Disj { sum: *sum, min_match: *min_match, cs: cs.iter().map(|c| c.without_bitset()).collect() },
         }
     }
     /// the same document sets with buffered unions nested directly in buffered unions flattened
@@ -224,6 +274,8 @@ impl T {
             T::Inter { cs, num_docs } => T::Inter { cs: cs.iter().map(|c| c.flatten_unions()).collect(), num_docs: *num_docs },
             T::Excl { u, es, single } => T::Excl { u: Box::new(u.flatten_unions()), es: es.iter().map(|c| c.flatten_unions()).collect(), single: *single },
             T::ReqOpt { sum, req, opt } => T::ReqOpt { sum: *sum, req: Box::new(req.flatten_unions()), opt: Box::new(opt.flatten_unions()) },
+            T::SUnion { cs } => T::SUnion { cs: cs.iter().map(|c| c.flatten_unions()).collect() },
+            T::Disj { sum, min_match, cs } => T::Disj { sum: *sum, min_match: *min_match, cs: cs.iter().map(|c| c.flatten_unions()).collect() },
         }
     }
 }
@@ -286,6 +338,19 @@ fn build(t: &T) -> Built {
             } else {
                 Box::new(Exclude::new(bu.scorer, excl))
             };
+            Built { scorer, model, dense: false }
+        }
+        T::SUnion { cs } => {
+            let bs: Vec<Built> = cs.iter().map(build).collect();
+            let model = format!("su;{};{}", bs.len(), bs.iter().map(|b| b.model.clone()).collect::<Vec<_>>().join(";"));
+            let children: Vec<Box<dyn DocSet>> = bs.into_iter().map(|b| Box::new(AsDocSet(b.scorer)) as Box<dyn DocSet>).collect();
+            Built { scorer: Box::new(FullFwd(tantivy::verif::simple_union(children))), model, dense: false }
+        }
+        T::Disj { sum, min_match, cs } => {
+            let bs: Vec<Built> = cs.iter().map(build).collect();
+            let model = format!("dj;{};{};{};{}", *sum as u8, min_match, bs.len(), bs.iter().map(|b| b.model.clone()).collect::<Vec<_>>().join(";"));
+            let children: Vec<Box<dyn Scorer>> = bs.into_iter().map(|b| b.scorer).collect();
+            let scorer = if *sum { tantivy::verif::disjunction_sum(children, *min_match) } else { tantivy::verif::disjunction_do_nothing(children, *min_match) };
             Built { scorer, model, dense: false }
         }
         T::ReqOpt { sum, req, opt } => {
@@ -390,7 +455,16 @@ fn gen_tree(rng: &mut Rng, depth: usize, max_doc: u32, pool: &mut Vec<Vec<u32>>)
         return l;
     }
     let num_docs = *rng.pick(&[1u32, max_doc + 1, 1_000_000]);
-    match rng.below(10) {
+    match rng.below(13) {
+        10 => {
+            let n = *rng.pick(&[1usize, 2, 2, 3, 4]);
+            return T::SUnion { cs: (0..n).map(|_| gen_tree(rng, depth - 1, max_doc, pool)).collect() };
+        }
+        11 | 12 => {
+            let n = *rng.pick(&[1usize, 2, 3, 3, 4, 5]);
+            let k = 2 + rng.usize_below(3);
+            return T::Disj { sum: rng.chance(2, 3), min_match: k, cs: (0..n).map(|_| gen_tree(rng, depth - 1, max_doc, pool)).collect() };
+        }
         0..=3 => {
             let n = *rng.pick(&[1usize, 2, 2, 3, 4]);
             T::BUnion { sum: rng.chance(2, 3), cs: (0..n).map(|_| gen_tree(rng, depth - 1, max_doc, pool)).collect(), num_docs }
@@ -1236,10 +1310,82 @@ fn check_query(ctx: &mut Ctx, index: &Index, text: tantivy::schema::Field, spec:
     if let Some(x) = incons.first() {
         ctx.report.violation("oracle", "C13:return-differs-from-doc", format!("{:?}: {x}", q), case.clone());
     }
-    let top = if scoring && (is_top_should_union(q) || contains_should(q)) { "bunion-sum" } else if is_top_should_union(q) || contains_should(q) { "bunion" } else if is_top_conjunction(q) || contains_conjunction(q) { "inter" } else { "query" };
     let score_of = |d: u32| -> Option<String> { if !scoring { return None; } fdocs.binary_search(&d).ok().map(|i| format!("x:{}", fscores[i])) };
-    // real observations print scores with full precision for the tolerance comparison
-    let v = judge_oracle(top, top == "inter", &fdocs, &prog, &obs.iter().map(|o| o.clone()).collect::<Vec<_>>(), &docs_after, &score_of, true);
+    // First judged without assuming anything about the scorer's type. A score / end-of-count
+    // deviation is attributed to a known finding only if a counterfactual run confirms it: the
+    // same program on a fresh scorer with the fill_buffer calls replaced by the equivalent
+    // advances (resp. count replaced by seek(TERMINATED)) gives the expected score (resp. doc).
+    let v0 = judge_oracle("query", false, &fdocs, &prog, &obs, &docs_after, &score_of, true);
+    let mut top = "query";
+    let mut dense = false;
+    if let Some((key, what)) = v0.oracle.first() {
+        let run_cf = |prog2: &[Call]| -> Option<(Vec<String>, Vec<u32>)> {
+            let mut o = vec![];
+            let mut d = vec![];
+            let mut inc = vec![];
+            catch_unwind(AssertUnwindSafe(|| {
+                if let Ok(mut s) = mk() {
+                    run_real(s.as_mut(), prog2, &mut o, &mut d, &mut inc);
+                }
+            }))
+            .ok()?;
+            Some((o, d))
+        };
+        if key == "C13:score-path-dependent" {
+            let i: usize = what.strip_prefix("call ").and_then(|r| r.split(' ').next()).and_then(|x| x.parse().ok()).unwrap_or(usize::MAX);
+            if i < prog.len() && prog[..i].iter().any(|c| matches!(c, Call::Fill)) {
+                let mut cur = Cursor { all: &fdocs, pos: 0, danger: None, counted: false };
+                let mut prog2 = vec![];
+                for c in &prog[..i] {
+                    if matches!(c, Call::Fill) {
+                        let n = (fdocs.len() - cur.pos).min(COLLECT_BLOCK_BUFFER_LEN);
+                        prog2.extend(std::iter::repeat(Call::Adv).take(n));
+                    } else {
+                        prog2.push(c.clone());
+                    }
+                    cur.step(c);
+                }
+                prog2.push(Call::Score);
+                let at = cur.doc();
+                if let (Some((o2, _)), Some(e)) = (run_cf(&prog2), score_of(at)) {
+                    let (a, b): (f32, f32) = (o2.last().map(|x| x[2..].parse().unwrap_or(f32::NAN)).unwrap_or(f32::NAN), e[2..].parse().unwrap_or(f32::NAN));
+                    if (a - b).abs() <= 1e-5 * b.abs().max(1.0) {
+                        top = "bunion-sum";
+                        ctx.report.count("query:counterfactual-confirms-fill-buffer");
+                    } else {
+                        ctx.report.count("query:counterfactual-refutes-fill-buffer");
+                    }
+                }
+            }
+        } else if key == "C13:count-doc-not-terminated" {
+            if let Some(i) = prog.iter().position(|c| matches!(c, Call::Count)) {
+                let mut prog2: Vec<Call> = prog[..i].to_vec();
+                prog2.push(Call::Seek(TERMINATED));
+                let count_ok = {
+                    let mut cur = Cursor { all: &fdocs, pos: 0, danger: None, counted: false };
+                    for c in &prog[..i] {
+                        cur.step(c);
+                    }
+                    obs.get(i).map(|o| *o == format!("c:{}", fdocs.len() - cur.pos)).unwrap_or(false)
+                };
+                if let Some((_, d2)) = run_cf(&prog2) {
+                    if count_ok && d2.last() == Some(&TERMINATED) {
+                        let stale = docs_after.get(i).cloned().unwrap_or(TERMINATED);
+                        if fdocs.binary_search(&stale).is_ok() {
+                            top = "bunion";
+                        } else {
+                            top = "inter";
+                            dense = true;
+                        }
+                        ctx.report.count("query:counterfactual-confirms-count");
+                    } else {
+                        ctx.report.count("query:counterfactual-refutes-count");
+                    }
+                }
+            }
+        }
+    }
+    let v = if top == "query" { v0 } else { judge_oracle(top, dense, &fdocs, &prog, &obs, &docs_after, &score_of, true) };
     for (key, what) in &v.oracle {
         ctx.report.violation("oracle", key, format!("{:?} (scoring {scoring}): {what}", q), case.clone());
     }
@@ -1287,7 +1433,7 @@ fn corpus(ctx: &mut Ctx) {
     // count_including_deleted leaves doc()
     let t3 = T::BUnion { sum: false, cs: vec![leaf(vec![1, 5, 9000], 1), leaf(vec![5, 7], 1)], num_docs: 10_000 };
     check_direct(ctx, &t3, &[Call::Adv, Call::Count, Call::Doc, Call::Adv, Call::Doc], "corpus-union-count");
-    let t4 = T::Inter { cs: vec![leaf(vec![1, 2000], 1), leaf(vec![1], 1)], num_docs: 10 };
+    let t4 = T::Inter { cs: vec![leaf(vec![1, 5000], 1), leaf(vec![1, 2, 3], 1)], num_docs: 10 };
     check_direct(ctx, &t4, &[Call::Count, Call::Doc, Call::Adv, Call::Doc], "corpus-inter-dense-count");
     // nested buffered unions under an intersection (seek_danger below the inner window start)
     let x = T::BUnion { sum: false, cs: vec![leaf(vec![100, 5000, 5010], 1), leaf(vec![20_000], 1)], num_docs: 30_000 };
